@@ -30,14 +30,17 @@ import (
 	"elaverif/harness/regnet"
 	"elaverif/harness/runop"
 
+	"github.com/elastos/Elastos.ELA/account"
 	"github.com/elastos/Elastos.ELA/common"
 	"github.com/elastos/Elastos.ELA/common/config"
+	"github.com/elastos/Elastos.ELA/core"
 	"github.com/elastos/Elastos.ELA/core/contract"
 	"github.com/elastos/Elastos.ELA/core/contract/program"
 	"github.com/elastos/Elastos.ELA/core/transaction"
 	ctypes "github.com/elastos/Elastos.ELA/core/types/common"
 	"github.com/elastos/Elastos.ELA/core/types/functions"
 	"github.com/elastos/Elastos.ELA/core/types/interfaces"
+	"github.com/elastos/Elastos.ELA/core/types/outputpayload"
 	"github.com/elastos/Elastos.ELA/core/types/payload"
 	"github.com/elastos/Elastos.ELA/crypto"
 	"github.com/elastos/Elastos.ELA/dpos/state"
@@ -465,7 +468,20 @@ func getPipeNode() *regnet.Node {
 		if err != nil {
 			panic("harness: tempdir")
 		}
-		n, err := regnet.NewNode(dir, regnet.Options{CoinbaseMaturity: 1, NoPoolEvents: true})
+		n, err := regnet.NewNode(dir, regnet.Options{CoinbaseMaturity: 1, NoPoolEvents: true, Tweak: func(p *config.Configuration) {
+			// the origin (on-duty) arbiters are accounts whose keys the harness holds, so that payloads which need
+			// the signature of the on-duty cross-chain arbiter (SideChainPow) can be produced
+			var ks []string
+			for i := 0; i <= regnet.NumUsers; i++ {
+				a, err := account.NewAccountWithPrivateKey(regnet.DeterministicKey(i))
+				if err != nil {
+					panic("harness: account")
+				}
+				b, _ := a.PublicKey.EncodePoint(true)
+				ks = append(ks, hex.EncodeToString(b))
+			}
+			p.DPoSConfiguration.OriginArbiters = ks
+		}})
 		if err != nil {
 			panic("harness: regnet node: " + err.Error())
 		}
@@ -504,8 +520,30 @@ func execPipe(t []string) string {
 	if _, err := n.Chain.CheckTransactionContext(height, tx, 0, 0); err != nil {
 		return "fine"
 	}
-	if len(tx.Inputs()) > 0 && len(tx.Programs()) == 0 && !tx.IsCoinBaseTx() && !reviewedExempt("tx", byte(tx.TxType()), tx.PayloadVersion()) {
+	if len(tx.Inputs()) == 0 || tx.IsCoinBaseTx() || reviewedExempt("tx", byte(tx.TxType()), tx.PayloadVersion()) {
+		return "fine"
+	}
+	if len(tx.Programs()) == 0 {
 		return "accepted-unsigned"
+	}
+	// every spent (non cross-chain) address needs at least a program whose code hashes to it
+	refs, err := n.Chain.UTXOCache.GetTxReference(tx)
+	if err != nil {
+		return "fine"
+	}
+	for _, out := range refs {
+		if out.ProgramHash[0] == byte(contract.PrefixCrossChain) {
+			continue
+		}
+		found := false
+		for _, p := range tx.Programs() {
+			if common.ToCodeHash(p.Code).IsEqual(out.ProgramHash.ToCodeHash()) {
+				found = true
+			}
+		}
+		if !found {
+			return "accepted-unsigned"
+		}
 	}
 	return "fine"
 }
@@ -601,6 +639,65 @@ func genPipe(g *hx.Gen) {
 					if raw != nil {
 						g.Emit("pipe %d %s", h, hx.Hex(raw))
 					}
+				}
+			}
+		}
+	}
+}
+
+// SideChainPow in its legacy form (with inputs): payload signed by the on-duty cross-chain arbiter (one of the
+// harness accounts, see getPipeNode), a foreign input, and a program of ANOTHER account (syntactically fine)
+func genPipeSideChainPow(g *hx.Gen) {
+	r := g.R
+	n := getPipeNode()
+	utxos, _ := n.UTXOs(0)
+	onDuty := n.Arbiters.GetOnDutyCrossChainArbitrator()
+	var signer *account.Account
+	for _, a := range n.Accounts {
+		b, _ := a.PublicKey.EncodePoint(true)
+		if bytes.Equal(b, onDuty) {
+			signer = a
+		}
+	}
+	if signer == nil || len(utxos) == 0 {
+		return
+	}
+	var heights []uint32
+	for _, h := range configHeights(n.Params) {
+		heights = append(heights, h-1, h+1)
+	}
+	heights = append(heights, 3, 4000000)
+	for _, h := range heights {
+		pl := &payload.SideChainPow{BlockHeight: uint32(r.Intn(100000))}
+		copy(pl.SideBlockHash[:], r.Bytes(32))
+		copy(pl.SideGenesisHash[:], r.Bytes(32))
+		buf := new(bytes.Buffer)
+		pl.Serialize(buf, payload.SideChainPowVersion)
+		sig, err := crypto.Sign(signer.PrivateKey, buf.Bytes()[0:68])
+		if err != nil {
+			panic("harness: sign")
+		}
+		pl.Signature = sig
+		u := utxos[r.Intn(len(utxos))]
+		other := n.Accounts[3]
+		for _, withInput := range []bool{true, false} {
+			for _, nOut := range []int{0, 1} {
+				var ins []*ctypes.Input
+				progs := []*program.Program{}
+				if withInput {
+					ins = append(ins, &ctypes.Input{Previous: ctypes.OutPoint{TxID: u.TxID, Index: uint16(u.Index)}})
+					progs = append(progs, &program.Program{Code: other.RedeemScript, Parameter: append([]byte{64}, r.Bytes(64)...)})
+				}
+				var outs []*ctypes.Output
+				for k := 0; k < nOut; k++ {
+					outs = append(outs, &ctypes.Output{AssetID: core.ELAAssetID, Value: u.Value - 10000, ProgramHash: other.ProgramHash,
+						Type: ctypes.OTNone, Payload: &outputpayload.DefaultOutput{}})
+				}
+				tx := functions.CreateTransaction(ctypes.TxVersion09, ctypes.SideChainPow, payload.SideChainPowVersion, pl,
+					[]*ctypes.Attribute{{Usage: ctypes.Nonce, Data: r.Bytes(8)}}, ins, outs, 0, progs)
+				b := new(bytes.Buffer)
+				if tx.Serialize(b) == nil {
+					g.Emit("pipe %d %s", h, hx.Hex(b.Bytes()))
 				}
 			}
 		}
@@ -821,6 +918,7 @@ func gen(g *hx.Gen) {
 	genTxsig(g, w)
 	genTies(g, w)
 	genPipe(g)
+	genPipeSideChainPow(g)
 }
 
 func cleanupPipe() {
